@@ -62,16 +62,25 @@ CHECKS = {
                   'variants, call-site preconditions), z3; bounded run-time monitors as labelled stand-in'),
     'C02': dict(
         category='proof',
-        text="The step contracts of conservation are proved for all inputs: transfer() of wigm, wigm-prf, cfer, scotland credits "
-             "exactly weight x multiplier to the new top candidate or to the non-transferable total and changes nothing else; "
-             "Ballot.vote is exactly weight x multiplier; Candidate.addVote/zeroVote. Composition over whole counts (the ledger "
-             "T <= N at every action) is the bounded stand-in.",
-        design_ref='DESIGN 6/C02, 11.7',
-        note=COMMON_NOTE + "Composition across rounds, mpls/meek/qpq distribution steps and the rounding-loss bound are checked by "
-             "the bounded monitor only (labelled bounded; never counted as proved). meek-prf's post-exclusion snapshots are outside "
-             "the monitor (DESIGN 6.0 item 3).",
-        technique='contract-based deductive verification of the transfer closures and ballot value (array-store postconditions), '
-                  'bounded ledger monitor as labelled stand-in'),
+        text="Conservation is proved through the whole count() of wigm (fixed-point and exact instances), wigm-prf and scotland with a "
+             "ghost vote ledger maintained at every store to a tally, the non-transferable total, a ballot's weight or position: after "
+             "the first tally the tallies add up to the ballots cast; at every recorded step (every logAction / newRound / elect / "
+             "defeat / unpend call site) tallies + non-transferable total <= ballots cast (== under exact arithmetic); no tally and "
+             "no non-transferable total is negative; loop invariants of every ballot sweep (what is credited is exactly the value "
+             "leaving the excluded candidate's pile / at most value x surplus / tally for a surplus). Step contracts: transfer() of "
+             "wigm, wigm-prf, cfer, scotland, Ballot.advance, Ballot.vote. Meek / Warren: distributeVotes() leaves tallies + residual "
+             "== ballots exactly (strict rankings). The composed rounding-loss lower bound, wigm-prf-batch, mpls, cfer, meek-prf, qpq and "
+             "equal rankings: bounded stand-in.",
+        design_ref='DESIGN 6/C02, 11.L',
+        note=COMMON_NOTE + "Model assumptions of the ledger (DESIGN 11.L): G[c] is the sum of the values of the ballots standing with c "
+             "(closing fact of the partial sums; empty-sum and zero-sum lemmas), sum of multipliers == nBallots (C15 post-parse "
+             "invariant), candidate ids distinct. The lower bound (value lost only through the prescribed rounding) is proved per "
+             "ballot (site obligation) and composed by the bounded monitor only. wigm-prf-batch sure-loser sweeps, mpls, cfer, "
+             "meek-prf, qpq, equal rankings: bounded monitor only (labelled bounded; never counted as proved). meek-prf's "
+             "post-exclusion snapshots are outside the monitor (DESIGN 6.0 item 3).",
+        technique='contract-based deductive verification of the real count() bodies with a ghost vote ledger (loop invariants of the '
+                  'ballot sweeps, call-site obligations at every recorded step), transfer closures and Meek distribution under contract; '
+                  'z3/cvc5; bounded ledger monitor as labelled stand-in for the other rules'),
     'C04': dict(
         category='proof',
         text="calcQuota of wigm (integer_quota / exact / guarded / fixed cases), scotland, mpls, wigm-prf, cfer against the "
@@ -85,15 +94,18 @@ CHECKS = {
     'C06': dict(
         category='proof',
         text="transfer(): the ballot moves to the first hopeful candidate of its ranking, every candidate passed over is not "
-             "hopeful (loop invariant + variant), exactly its value is credited; ballot invariant 0<=index<=len preserved by "
-             "advance(). Inside the verified count() bodies of wigm, wigm-prf, scotland, mpls: at every store to a ballot's weight the "
+             "hopeful (loop invariant + variant), exactly its value is credited and the value it carries moves with it (ghost pile "
+             "G). Inside the verified count() bodies of wigm, wigm-prf, scotland, mpls: at every store to a ballot's weight the "
              "new value is in [0, old], new x tally <= old x surplus (rounded down, never up) and short of it by less than one unit per "
-             "truncation (exactly equal under exact arithmetic); main-loop invariants: a candidate whose surplus was transferred holds "
-             "exactly the quota, an excluded candidate holds nothing. tally == sum of ballot values over whole counts: bounded monitor.",
-        design_ref='DESIGN 6/C06, 11.9',
-        note=COMMON_NOTE + "tally = sum of the values of the ballots standing with a candidate (needs a per-candidate sum ledger) "
-             "is checked at every recorded action by the bounded monitor only (labelled); cfer's body is bounded only.",
-        technique='contract-based deductive verification of transfer()/Ballot methods; bounded tally monitor as stand-in'),
+             "truncation (exactly equal under exact arithmetic). Main-loop invariants of wigm, wigm-prf, scotland: every continuing "
+             "candidate's tally equals the value of the ballots standing with that candidate (W6, ghost piles), a candidate whose "
+             "surplus was transferred holds exactly the quota, an excluded candidate holds nothing; surplus and exclusion sweeps leave "
+             "every other candidate's tally-minus-pile unchanged and end with no ballot standing with the swept candidate.",
+        design_ref='DESIGN 6/C06, 11.L',
+        note=COMMON_NOTE + "W6 (tally == value of the ballots standing with the candidate) rests on the ledger model assumptions of DESIGN "
+             "11.L; for mpls, cfer and wigm-prf-batch it is checked at every recorded action by the bounded monitor only (labelled).",
+        technique='contract-based deductive verification of transfer()/Ballot methods and of the count() bodies (ghost piles per '
+                  'candidate, sweep invariants); bounded tally monitor as stand-in for mpls / cfer / batch variants'),
     'C07': dict(
         category='proof',
         text="breakTie of wigm, wigm-prf, meek, mpls, qpq: result is a tied candidate, a single candidate is returned silently, "
@@ -134,11 +146,15 @@ CHECKS = {
         category='proof',
         text="The keep/weight step of meek and warren (kw_meekOpenSTV, kw_warren) is proved for all operands: no negative keep value "
              "or weight, a ballot never hands out more than it holds (Warren: exactly); iterate()'s exit statuses and 'exclusion "
-             "only after the end of an iteration' are SCAN obligations on the AST. votes+residual == ballots at every snapshot, keep "
-             "factors by status and convergence exit are checked by the bounded monitor.",
+             "only after the end of an iteration' are SCAN obligations on the AST. distributeVotes() of meek/warren is verified against "
+             "M1 for strict rankings: afterwards all tallies + the residual == ballots cast, exactly, for both keep/weight variants "
+             "(ghost total, per-ballot invariant 'handed out + own residual == papers', zero-sum lemma after the reset loop). "
+             "Equal rankings (recursive split), keep factors by status and the convergence exit are checked by the bounded monitor.",
         design_ref='DESIGN 6/C08, 11.13',
-        note=COMMON_NOTE + "distributeVotes / iterateStep composition (M1) and kf <= 1 for elected candidates: bounded monitor only.",
-        technique='contract-based deductive verification of the keep/weight closures; AST scans; bounded snapshot monitor'),
+        note=COMMON_NOTE + "M1 is proved at the level of distributeVotes() (the callers in count() still use its trusted frame contract); "
+             "meek-prf iterateStep, equal rankings, and kf <= 1 for elected candidates: bounded monitor only.",
+        technique='contract-based deductive verification of the keep/weight closures and of the distribution sweep (ghost total); AST scans; '
+                  'bounded snapshot monitor'),
     'C10': dict(
         category='proof',
         text="Ballot.vote == weight x multiplier exactly (contract, all arithmetics) so splitting a multiplier cannot change a value; "
